@@ -102,7 +102,7 @@ func (e *Engine) analyse(fn *ssa.Function, blk *Block) (rep *FuncReport) {
 	// free variables of a closure analysed on its own: symbolic cells / refs
 	for _, fv := range fn.FreeVars {
 		et := fv.Type().(*types.Pointer).Elem()
-		if _, ok := et.Underlying().(*types.Struct); ok {
+		if _, ok := et.Underlying().(*types.Struct); ok && !isOpaqueStruct(et) {
 			ref := e.freshConst("fv_"+fv.Name(), SRef)
 			ri.Free = append(ri.Free, ReplayVar{Name: fv.Name(), Typ: et, V: ref})
 			st.assume(Not(Eq(ref, NilOf(SRef))))
@@ -446,8 +446,23 @@ func (e *Engine) checkExit(run *Run, ex *Exit, blk *Block) {
 		where := ""
 		for k, v := range st.Facts {
 			if strings.HasPrefix(k, "dirty:") {
-				goal = False
 				where = k + " at " + v
+				// no Broadcast is owed while the condition variable of that lock does not exist yet (lazy
+				// initialisation): nobody can be parked on it
+				g := False
+				if parts := strings.SplitN(strings.TrimPrefix(k, "dirty:"), ":", 2); len(parts) == 2 {
+					if ol := strings.SplitN(parts[0], ".", 2); len(ol) == 2 {
+						if tb := e.cs.Types[ol[0]]; tb != nil {
+							for _, cl := range tb.All("cond") {
+								if len(cl.Words) >= 1 && strings.TrimSpace(cl.Expr) == ol[1] {
+									cv := e.regionRead(st, fieldRegionName(ol[0], cl.Words[0]), []Sort{SRef}, SRef, T{parts[1], SRef})
+									g = Eq(cv, NilOf(SRef))
+								}
+							}
+						}
+					}
+				}
+				goal = And(goal, g)
 			}
 		}
 		e.emitWith(st, name+"/bcast-after-change:return", "", nil, goal, "guarded state changed without a Broadcast before returning to the lock holder: "+where, e.framePos(fr), []string{"C04", "C05"}, nil)
